@@ -14,7 +14,7 @@ import random
 from common import Check, batch, vacuity
 import refactor as rf
 
-EXPRS = {"int", "str", "bool", "var", "paren", "bin", "list", "tuple", "ctor", "call", "mcall"}
+EXPRS = {"int", "str", "bool", "var", "paren", "bin", "list", "tuple", "ctor", "call", "mcall", "dot", "slit"}
 
 
 def nerrors(r):
@@ -24,7 +24,7 @@ def nerrors(r):
 def run(tier, seed):
     ck = Check("C21", "model_checking", tier, seed)
     rnd = random.Random(seed * 73 + 21)
-    tres, origs = rf.originals(seed + 211, 120 if tier == "quick" else 1200, size=5, err_rate=0.0)
+    tres, origs = rf.originals(seed + 211, 120 if tier == "quick" else 1200, size=5, err_rate=0.0, features={"ext": True})
     ck.add_tlc(tres)
     base_chk = batch("frontend", [{"id": i, "src": s, "format": False} for i, (_, s, _) in enumerate(origs)], timeout_per=3.0)
     jobs, meta = [], []
